@@ -22,7 +22,14 @@ CONTENTS = [
     P.notes_to_abs([(0, 50, 6, 30, 90), (0, 52, 48, 120, 40), (0, 55, 150, 156, 30)], [P.ts(0, 4, 4)], dur=192),
     P.notes_to_abs([(0, 72, 0, 24, 100), (0, 74, 24, 48, 100), (0, 76, 96, 108, 100)], [], dur=150),
     P.notes_to_abs([(0, 65, 3, 30, 90)], []),        # shorter than one bar
+    # first signature only at the second bar
+    P.notes_to_abs([(0, 60, 0, 24, 80), (0, 62, 96, 120, 70)], [P.ts(96, 3, 4), P.ks(96, "A")], dur=168),
 ]
+# a legal original that is not in normal form (relative messages): a note still sounding at the end, a note-off that
+# closes nothing, a pitch struck twice before release, a repeated key signature
+RAW_REL = [P.ks(-1, "G"), P.on(-1, 0, 60, 80), P.wait(24), P.off(-1, 0, 50), P.on(-1, 0, 60, 70), P.wait(24), P.off(-1, 0, 60),
+           P.ks(-1, "G"), P.wait(48), P.off(-1, 0, 60), P.on(-1, 0, 69, 60), P.wait(96)]
+PRE = {}
 SECOND = P.notes_to_abs([(0, 40, 0, 24, 64), (0, 43, 100, 124, 64)], [], dur=192)
 OTHER = P.notes_to_abs([(0, 67, 2, 9, 75)], [], dur=12)
 
@@ -116,7 +123,13 @@ def apply_op(obj, op, other=None):
 
 def derive(route, ci, via):
     mk = (lambda ms: P.seq_from_abs(ms)) if via == "abs" else (lambda ms: P.seq_from_rel(P.abs_to_rel(ms)))
-    seq = mk(CONTENTS[ci])
+    if ci == len(CONTENTS):
+        seq = P.seq_from_rel(RAW_REL)
+        if via == "abs":
+            seq.refresh()
+    else:
+        seq = mk(CONTENTS[ci])
+    PRE["content"] = content(seq)          # the original before anything is derived from it
     if route == "seq_copy":
         return seq, seq.copy()
     if route == "seq_copy_doubled":
@@ -126,7 +139,7 @@ def derive(route, ci, via):
         if ci % 2:
             x.refresh()
         return x, x.copy()
-    short = CONTENTS[ci] and max(m["t"] for m in CONTENTS[ci]) < 96
+    short = ci < len(CONTENTS) and CONTENTS[ci] and max(m["t"] for m in CONTENTS[ci]) < 96
     if route == "bar_copy":
         first = seq.split([96])[0]
         bar = Bar(first.copy(), 4, 4, Key("D"))
@@ -149,7 +162,10 @@ def derive(route, ci, via):
     if route in ("split_bars_second_track", "split_bars_second_track_requantise"):
         # the observed track is not the first of the call (the meta track is the other one)
         longer = mk(SECOND)
-        bars = Sequence.sequences_split_bars([longer, seq], 0, quantise_note_lengths=route.endswith("requantise"))[1]
+        # (an observed track that carries signatures of its own is the meta track)
+        has_sigs = ci < len(CONTENTS) and any(m["ty"] == "ts" and m["t"] > 0 for m in CONTENTS[ci])
+        bars = Sequence.sequences_split_bars([longer, seq], 1 if has_sigs else 0,
+                                             quantise_note_lengths=route.endswith("requantise"))[1]
         return seq, bars[(ci + route.endswith("requantise")) % len(bars)]
     raise core.MachineryError(route)
 
@@ -181,12 +197,14 @@ def shared_messages(a, b):
 def execute(case):
     idx, route, side, ops, ci = case
     line = {"route": route, "side": side, "ops": ops, "raised": "", "equalsApi": True, "attrsEqual": True, "shared": 0,
-            "before": {"orig": [], "der": []}, "after": {"orig": [], "der": []},
+            "before": {"orig": [], "der": []}, "after": {"orig": [], "der": []}, "preDerive": [],
             "case": {"route": route, "side": side, "ops": ops, "content": ci}}
     try:
         orig, der = derive(route, ci, "abs" if idx % 2 == 0 else "rel")
         line["shared"] = shared_messages(orig, der)
         line["before"] = {"orig": content(orig), "der": content(der)}
+        # deriving (splitting, bar splitting) must leave the original as it was
+        line["preDerive"] = PRE["content"] if (isinstance(orig, Sequence) and route.startswith("split")) else []
         if route.endswith("_copy"):
             so, sd = seqs_of(orig), seqs_of(der)
             line["equalsApi"] = len(so) == len(sd) and all(a.equals(b) and b.equals(a) for a, b in zip(so, sd))
@@ -238,7 +256,8 @@ def run(ctx):
         for route in g["routes"]:
             for side in g["sides"]:
                 for k, h in enumerate(hist):
-                    cis = range(len(CONTENTS)) if len(h) == 1 else [k % len(CONTENTS)]
+                    # (content number len(CONTENTS) is the original that is not in normal form)
+                    cis = range(len(CONTENTS) + 1) if len(h) == 1 else [k % (len(CONTENTS) + 1)]
                     for ci in cis:
                         cases.append((len(cases), route, side, h, ci))
     obs = pmap(execute, cases, chunk=100)
